@@ -40,26 +40,31 @@ theorem sweep_preserves (Q : TS → Prop) (h : ∀ s d, Q s → Q (doSleep s d).
     split <;> rename_i heq <;> rw [heq] at this <;> exact this
 
 /-- ... and so does leaving a task group (at most two suspensions: the join, the sweep) -/
-theorem gexit_preserves (Q : TS → Prop) (h : ∀ s d, Q s → Q (doSleep s d).2)
-    (T : Int) (ms : List (Nat × Nat)) (r : Res) (s : TS) (hs : Q s) : Q (gexit T ms r s).2.1 := by
+theorem gexit_preserves (Q : TS → Prop) (h : ∀ s d, Q s → Q (doSleep s d).2) (anyp : Bool)
+    (T : Int) (ms : List (Nat × Nat)) (r : Res) (s : TS) (hs : Q s) :
+    Q (gexit anyp T ms r s).2.1 := by
   unfold gexit
   split
   · exact sweep_preserves Q h _ _ _ hs
   · split
     · exact hs
-    · have := h s (T + maxNat (ms.map (·.1)) - s.now).toNat hs
-      split <;> rename_i heq <;> rw [heq] at this
-      · exact this
-      · exact sweep_preserves Q h _ _ _ this
+    · split
+      · exact sweep_preserves Q h _ _ _ hs
+      · have := h s (T + (if anyp then minNat (ms.map (·.1)) else maxNat (ms.map (·.1))) - s.now).toNat hs
+        split <;> rename_i heq <;> rw [heq] at this
+        · split
+          · exact sweep_preserves Q h _ _ _ this
+          · exact this
+        · exact sweep_preserves Q h _ _ _ this
 
-theorem gexit_deadlines (T : Int) (ms : List (Nat × Nat)) (r : Res) (s : TS) :
-    (gexit T ms r s).2.1.deadlines = s.deadlines :=
+theorem gexit_deadlines (anyp : Bool) (T : Int) (ms : List (Nat × Nat)) (r : Res) (s : TS) :
+    (gexit anyp T ms r s).2.1.deadlines = s.deadlines :=
   gexit_preserves (fun s' => s'.deadlines = s.deadlines)
-    (fun s' d h => by rw [doSleep_deadlines]; exact h) T ms r s rfl
+    (fun s' d h => by rw [doSleep_deadlines]; exact h) anyp T ms r s rfl
 
-theorem gexit_inv (T : Int) (ms : List (Nat × Nat)) (r : Res) (s : TS) (h : Inv s) :
-    Inv (gexit T ms r s).2.1 :=
-  gexit_preserves Inv doSleep_inv T ms r s h
+theorem gexit_inv (anyp : Bool) (T : Int) (ms : List (Nat × Nat)) (r : Res) (s : TS) (h : Inv s) :
+    Inv (gexit anyp T ms r s).2.1 :=
+  gexit_preserves Inv doSleep_inv anyp T ms r s h
 
 theorem enter_inv (s : TS) (d : Int) (h : Inv s) : Inv (enter s d) := by
   unfold enter Inv at *
@@ -123,11 +128,11 @@ theorem stack_discipline (fixed : Bool) (p : Prog) : ∀ (s : TS), Inv s →
     refine ⟨?_, aexit_inv _ _ _ _ _⟩
     rw [aexit_deadlines, hb.1]
     simp [enter]
-  | group ms body ih =>
+  | group anyp ms body ih =>
     intro s h
     simp only [run]
     have hb := ih s h
-    exact ⟨by rw [gexit_deadlines, hb.1], gexit_inv _ _ _ _ hb.2⟩
+    exact ⟨by rw [gexit_deadlines, hb.1], gexit_inv _ _ _ _ _ hb.2⟩
 
 /-- corollary: from a task with no active timeout nothing is left armed, whatever happened -/
 theorem nothing_left_armed (fixed : Bool) (p : Prog) (now : Int) (c : Option Int) :
